@@ -15,6 +15,7 @@ EXPLANATION = (
     "key-profile name the validator accepts is dispatched; (F3-KEYS) the 24-row KEYS table agrees with MAJOR_KEYS/"
     "MINOR_KEYS and is in chromatic order as the circulant profiles assume; (F8b) no int() of a rank-1 array; (F8a) "
     "library names resolve."
+    ' (GROUPBY) every itertools.groupby is fed data sorted by the same key.'
 )
 NOT_DECIDED = [
     "spelled pitch sounds the MIDI pitch (numeric algorithm)", "voice numbering without gaps", "key-estimation invariances",
